@@ -159,7 +159,7 @@ Definition v_hex_len (v : value) : nat :=
   match v with
   | VNum n => num_hex_len n
   | VAddr i => length (hexdigits i)
-  | VStr s => length (concat (map hexdigits s))
+  | VStr s => length (concat (map (fmt_hex 2) s))          (* two digits per character: repair F50 *)
   | VMulti h => length h
   | _ => 0
   end.
@@ -169,7 +169,7 @@ Definition v_hex (v : value) : option (list N) :=
   match v with
   | VNum n => num_hex n 0
   | VAddr i => Some (fmt_hex (even_up (length (hexdigits i))) i)
-  | VStr s => Some (concat (map hexdigits s))
+  | VStr s => Some (concat (map (fmt_hex 2) s))
   | VMulti h => Some h
   | VExpr _ _ _ _ _ => Some [0; 0]
   | _ => Some []
